@@ -43,13 +43,24 @@ func Creator(ctx context.Context, name string, options map[string]string) (physi
 			return nil, physical.Schema{}, fmt.Errorf("expected JSON object, got '%s'", sc.Text())
 		}
 
+		seenInRow := make(map[string]struct{})
 		o.Visit(func(key []byte, v *fastjson.Value) {
+			seenInRow[string(key)] = struct{}{}
 			if t, ok := fields[string(key)]; ok {
 				fields[string(key)] = octosql.TypeSum(t, getOctoSQLType(v))
+			} else if i > 1 {
+				// The key was missing from all previous rows, which means it's nullable.
+				fields[string(key)] = octosql.TypeSum(getOctoSQLType(v), octosql.Null)
 			} else {
 				fields[string(key)] = getOctoSQLType(v)
 			}
 		})
+		// Keys missing from this row are nullable.
+		for key, t := range fields {
+			if _, ok := seenInRow[key]; !ok {
+				fields[key] = octosql.TypeSum(t, octosql.Null)
+			}
+		}
 	}
 	if sc.Err() != nil {
 		return nil, physical.Schema{}, fmt.Errorf("couldn't scan lines: %w", sc.Err())
